@@ -94,6 +94,26 @@ theorem partitions_count_ca (ca X : Var) (hca : ca.kind = .arr) (hnm : ca.isMR =
   rw [nPartitions, hk3]
   simp [firstDimCount, hca]
 
+/-- a categorical array (items × categories) under a categorical / multiple-response table
+    variable: partition k is the 2-D analysis of the array over the respondents in table element k -/
+theorem partition_restricts_ca (T V : Var) (hT : T.CM) (hV : V.kind = .arr) (hnm : V.isMR = false)
+    (s : Survey) (k : Nat) (hk : k < T.ext) :
+    sliceCounts [T, V] (cubeOf [T, V] s) k
+      = sliceCounts [V] (cubeOf [V] (restrictTo T k s)) 0 := by
+  have hk3 : apparentKinds [T, V] = [T.dk, .arr, .cat] := by
+    rcases hT with hT | ⟨hT, hmT, _⟩ <;> simp [apparentKinds, Var.dks, Var.dk, hV, hnm, *]
+  have hk2 : apparentKinds [V] = [.arr, .cat] := by simp [apparentKinds, Var.dks, hV, hnm]
+  unfold sliceCounts
+  rw [hk3, hk2]
+  have h := sliceExpr_restrict T [V] hT s k hk
+  simp only [List.length_cons, List.length_nil, List.getD] at h ⊢
+  simp only [show (0 + 1 + 1 + 1 : Nat) = 3 by rfl, show (0 + 1 + 1 : Nat) = 2 by rfl] at h ⊢
+  simp only [show (3 - 2 : Nat) = 1 by rfl, show (3 - 1 : Nat) = 2 by rfl,
+    show (2 - 2 : Nat) = 0 by rfl, show (2 - 1 : Nat) = 1 by rfl, List.getElem?_cons_zero,
+    List.getElem?_cons_succ, Option.getD_some] at h ⊢
+  rw [h]
+  simp [sliceExpr]
+
 -- non-vacuity: a concrete 3-D design (MR table variable, categorical rows with a missing
 -- category in mid-payload, categorical columns) satisfies the hypotheses
 example : (⟨.arr, 2, [false, false, true], true⟩ : Var).CM ∧
